@@ -180,15 +180,18 @@ class TRTaps:
         pb = fw._pb
         npt, n = m.npt, m.n
         pen = fw.penalty
-        merits, viols = [], []
+        merits, viols, mags = [], [], []
         for k in range(npt):
             x = m.interpolation.point(k)
             v = np.r_[np.maximum(pb.linear.a_ub @ x - pb.linear.b_ub, 0.0), np.abs(pb.linear.a_eq @ x - pb.linear.b_eq),
                       np.maximum(m.cub_val[k, :], 0.0), np.abs(m.ceq_val[k, :])]
             mk = m.fun_val[k]
+            pk = 0.0
             if pen > 0.0 and np.count_nonzero(v):
-                mk = mk + pen * float(np.linalg.norm(v))
+                pk = pen * float(np.linalg.norm(v))
+                mk = mk + pk
             merits.append(float(mk))
+            mags.append(abs(float(m.fun_val[k])) + pk)
             viols.append(float(np.max(v, initial=0.0)))
         b = int(fw.best_index)
         mb = merits[b]
@@ -202,13 +205,23 @@ class TRTaps:
             out.fail("C18.centre", "the centre (index %d, merit %.17g) is not a least-merit interpolation point: "
                      "index %d has merit %.17g (penalty %.3g, band %.3g)"
                      % (b, mb, int(np.argmin(merits)), mmin, pen, band))
-        else:
-            for k in range(npt):
-                # clear cases only: the harness' recomputation of a violation differs from the solver's by rounding
-                if k != b and merits[k] == mb and viols[k] < viols[b] - 1e-9 * max(1.0, viols[b]):
-                    out.fail("C18.centre_tie", "index %d has exactly the centre's merit and a smaller violation "
-                             "(%.3g < %.3g)" % (k, viols[k], viols[b]))
-                    break
+            return
+        # ties within rounding go to the smaller violation.  "Within rounding" is the solver's own band
+        # 10*eps*max(n, npt)*max(|least merit|, 1); only points clearly inside it (half the band, minus the
+        # rounding of this recomputation of the merit values) and clearly less violated (1e-9 relative) count.
+        tol = 10.0 * S.EPS * max(n, npt) * max(abs(mmin), 1.0)
+        slack = 8.0 * S.EPS * max(mags)
+        for k in range(npt):
+            if k != b and merits[k] - mmin <= 0.5 * tol - slack and viols[k] < viols[b] - 1e-9 * max(1.0, viols[b]):
+                out.fail("C18.centre_tie", "index %d has the least merit up to rounding (%.17g, least %.17g, centre "
+                         "%.17g, band %.3g) and a smaller violation than the centre %d (%.6g < %.6g)"
+                         % (k, merits[k], mmin, mb, tol, b, viols[k], viols[b]))
+                break
+        if any(k != b and merits[k] - mmin <= 0.5 * tol - slack and viols[k] > viols[b] + 1e-9 * max(1.0, viols[b])
+               for k in range(npt)):
+            if not getattr(self, "_tie_seen", False):
+                self._tie_seen = True
+                out.label("merit-tie-with-different-violations")
 
 
 def run_case(spec):
